@@ -148,9 +148,9 @@ def gen_cases(ctx):
             tv = [round(rng.uniform(-5, 30), 2) for _ in range(m)]
         span = sum(spacings)
         offs = sorted(set([0, span - 1] + [rng.randrange(span) for _ in range(3 if ctx.quick else 6)]))
-        # offsets that start exactly on an inner frame
-        cum = list(itertools.accumulate(spacings))
-        offs = sorted(set(offs + [c for c in cum[:-1] if rng.random() < 0.5]))
+        # offsets that start exactly on an inner frame (counted from the first frame / from the last when reversed)
+        cum = list(itertools.accumulate(spacings))[:-1] + list(itertools.accumulate(reversed(spacings)))[:-1]
+        offs = sorted(set(offs + [c for c in cum if rng.random() < 0.5]))
         out.append(family(spacings, parts, scalar, exact, uv, tv, offsets=offs))
     if not ctx.quick:
         for k, fam in enumerate(out):
@@ -199,15 +199,17 @@ def compare(lay, scalar, got, tol):
 
 
 def nontrivial_key(lay, scalar):
-    """a hand-over at a frame step after step 0 inside the run, with a slope change there"""
+    """a hand-over at a frame step after step 0 inside the run, with a slope change at that frame"""
     frames = [f for fl_ in lay["files"] for f in fl_]
-    lo, hi = sorted((lay["start"], lay["stop"]))
-    inner = [j for j in range(1, len(frames) - 1) if lo < frames[j][0] < hi or (frames[j][0] != lay["start"] and lo <= frames[j][0] <= hi)]
-    for j in inner:
+    nsteps = abs(lay["stop"] - lay["start"]) // lay["dt"]
+    for j in range(1, len(frames) - 1):
+        step = abs(frames[j][0] - lay["start"]) // lay["dt"]
+        inside = (frames[j][0] < lay["start"]) if lay["reversed"] else (frames[j][0] > lay["start"])
         s1 = (frames[j][1] - frames[j - 1][1]) / (frames[j][0] - frames[j - 1][0])
         s2 = (frames[j + 1][1] - frames[j][1]) / (frames[j + 1][0] - frames[j][0])
-        if s1 != s2:
-            return json.dumps([lay.get("key") or [lay["start"], lay["stop"], [[f[0] for f in fl_] for fl_ in lay["files"]]], scalar])
+        if inside and 0 < step < nsteps and s1 != s2:
+            return json.dumps([lay.get("key") or [lay["start"], lay["stop"], [[f[0] for f in fl_] for fl_ in lay["files"]]],
+                               scalar])
     return None
 
 
